@@ -15,3 +15,12 @@ MUTANTS += [
     ("indent-analyze-none-indent", "vsg/rules/token_indent.py", "    if lTokens[0].get_indent() is None:\n        return False\n    if self.indent_size == 0:", "    if self.indent_size == 0:"),
     ("indent-analyze-wrong-action", "vsg/rules/token_indent.py", "    create_violation(self, oToi, sSolution, \"add_whitespace\")", "    create_violation(self, oToi, sSolution, \"adjust_whitespace\")"),
 ]
+
+W = "vsg/rules/whitespace_between_tokens.py"
+MUTANTS += [
+    # the analysis of two adjacent tokens asks for zero spaces again (the defect repaired by 84df827): V_F is no longer established
+    ("ws-analyze-asks-for-zero", W, "        if iSpaces > 0:\n            self.create_violation(oToi, iSpaces)", "        if iSpaces >= 0:\n            self.create_violation(oToi, iSpaces)"),
+    # keying the removal on the requested width instead of the option is harmless once the analysis never asks for zero spaces
+    # between adjacent tokens: no alarm
+    ("ws-zero-by-action-ok", W, "        if self.number_of_spaces == 0:\n            lTokens = [lTokens[0], lTokens[2]]", "        if dAction[\"spaces\"] == 0:\n            lTokens = [lTokens[0], lTokens[2]]"),
+]
